@@ -211,6 +211,16 @@ def _guard_args(ctx, stage, opi, args, fn, fresh=None):
         except Exception:  # noqa: BLE001
             ctx.probes["stage_rejects_input"] += 1
             return _FAILED
+        ro = [k for k, a in enumerate(args) if isinstance(a, np.ndarray) and not a.flags.writeable]
+        if ro and "read-only" in str(e):
+            # the argument was handed over read-only and the stage tried to write into it (even a
+            # write that changes no value needs the caller's array to be writable)
+            ctx.violate(
+                "c11.argument_modified",
+                f"op {opi} {stage}: raised {type(e).__name__}: {str(e)[:120]} — argument {ro[0]} was passed as a read-only array and the stage writes into it (a writable copy of the same batch is accepted)",
+                sig=f"{stage}:arg{ro[0]}:read-only",
+            )
+            return _FAILED
         ctx.violate(
             "c11.history_dependent_failure",
             f"op {opi} {stage}: raised {type(e).__name__}: {str(e)[:160]} on the long-lived object, but a fresh object accepts the same batch",
